@@ -55,6 +55,7 @@ def run(repo, rep, tier):
     _identifiers(repo, rep)
     _publish(repo, rep)
     _locks(repo, rep)
+    L.state_rule(repo, rep)
 
 
 def reachable(repo, cls_qual, entries, skip):
